@@ -1,0 +1,26 @@
+//go:build verif
+
+// Assumed contracts of the SPI interfaces (consumer-supplied implementations; their bodies are outside the verified
+// code). Read by /verif/govc (comment-only: no declarations, no effect on any build).
+
+package interfaces
+
+// A-KM: the verdict of the key manager is a function of (height, signed bytes, sender id, sender signature).
+//@ iface interfaces.KeyManager.VerifyConsensusMessage
+//@   pure
+//@   ensures (result == nil) == VerifiedMsg(self, blockHeight, content, sender.MemberId(), sender.Signature())
+
+//@ iface interfaces.KeyManager.VerifyRandomSeed
+//@   pure
+//@   ensures (result == nil) == VerifiedSeed(self, blockHeight, content, sender.MemberId(), sender.Signature())
+
+// A-SPI: ValidateBlockCommitment is a pure predicate.
+//@ iface interfaces.BlockUtils.ValidateBlockCommitment
+//@   pure
+//@   ensures result == Commits(self, blockHeight, block, blockHash)
+
+// A-SPI: the committee is a function of the request; its total weight fits 64 bits (the domain of C06).
+//@ iface interfaces.Membership.RequestCommitteeForBlockProof
+//@   pure
+//@   ensures result0 == CommitteeOf(self, ctx, blockHeight, prevBlockReferenceTime)
+//@   ensures SumMW(result0, len(result0)) < 2^64
